@@ -12,6 +12,7 @@ import z3
 
 from pyvc import ext_C01
 from pyvc import models as M
+from pyvc import strmodel as STR
 from pyvc.engine import ProgExc, Unsupported
 from pyvc.models import FmtPiece, SymStr
 from pyvc.spec import Registry
@@ -362,15 +363,20 @@ def register(R: Registry):
     # --------------------------------------------------------- SWCLike.to_swc
     from contracts.common import col, sym_tree
 
-    def like_setup(source, own_source, comments, fname, extra):
+    def like_setup(source, own_source, comments, fname, extra, how_many="two"):
         def f(S):
             t = sym_tree(S, "t", frozen=True)
             t.fields["source"] = own_source
-            c0, c1 = S.opaque({}, "comment0"), S.opaque({}, "comment1")  # two arbitrary (abstract) comment strings
-            t.fields["comments"] = PList([c0, c1])
+            if how_many == "two":
+                c0, c1 = STR.fresh_str("comment0"), STR.fresh_str("comment1")  # two arbitrary (abstract) comment strings
+                t.fields["comments"] = PList([c0, c1])
+                own = [c0, c1]
+            else:  # any number of arbitrary comment strings
+                own = t.fields["comments"] = STR.str_list("comments")
+                S.assume(own.n >= 0)
             t.fields["comments"].frozen = True
             return dict(self=t, fname=fname, extra_cols=PList(list(extra)) if extra is not None else None, source=source,
-                        comments=comments, id_offset=S.int("id_offset"), own_comments=[c0, c1])
+                        comments=comments, id_offset=S.int("id_offset"), own_comments=own)
 
         return f
 
@@ -394,14 +400,27 @@ def register(R: Registry):
 
     def like_header(E, v, o):
         a = the_call(E)
-        if a is None or not isinstance(a["comments"], PList) or a["comments"].items is None:
+        if a is None or not isinstance(a["comments"], PList):
             return False
         src, own = o["source"], o["self"].fields["source"]
         exp = []
         if src is not False:
             exp += ["source: " + (src if isinstance(src, str) else (own if own else "Unknown")), ""]
+        mine = v["own_comments"]
+        if isinstance(mine, PList):  # any number of comments: header entries by position, then entry h+i is the tree's comment i, and no more
+            got = a["comments"]
+            if o["comments"] is not True:
+                return got.items is not None and len(got.items) == len(exp) and all(g == e for g, e in zip(got.items, exp))
+            if got.items is not None or got.tup or got.kinds != ["ref"]:
+                return False
+            h, i = len(exp), z3.Int(fresh_name("i"))
+            head = [z3.Select(got.cols[0], j) == STR.as_id(E, e) for j, e in enumerate(exp)]
+            return z3.And(zint(got.n) == h + zint(mine.n), *head,
+                          z3.ForAll([i], z3.Implies(z3.And(i >= 0, i < zint(mine.n)), z3.Select(got.cols[0], h + i) == z3.Select(mine.cols[0], i))))
         if o["comments"] is True:
-            exp += list(v["own_comments"])
+            exp += list(mine)
+        if a["comments"].items is None:
+            return False
         got = a["comments"].items
         return len(got) == len(exp) and all((g == e) if isinstance(e, str) else (g is e) for g, e in zip(got, exp))
 
@@ -427,7 +446,12 @@ def register(R: Registry):
                 and len(f["written"]) == 1 and f["written"][0] is lines[0])
 
     def like_input_kept(E, v, o):
-        cs = v["self"].fields["comments"]
+        cs, was = v["self"].fields["comments"], o["self"].fields["comments"]
+        if was.items is None:  # any number of comments: same length, same entries
+            if cs.items is not None:
+                return False
+            i = z3.Int(fresh_name("i"))
+            return z3.And(zint(cs.n) == zint(was.n), z3.ForAll([i], z3.Implies(z3.And(i >= 0, i < zint(was.n)), z3.Select(cs.cols[0], i) == z3.Select(was.cols[0], i))))
         return cs.items is not None and len(cs.items) == 2 and all(a is b for a, b in zip(cs.items, v["own_comments"]))
 
     R.add(
@@ -440,6 +464,11 @@ def register(R: Registry):
             "text,no-source,comments,extra-columns": like_setup(False, "a.swc", True, None, ["e"]),
             "text,no-source,no-comments": like_setup(False, "", False, None, None),
             "file,source-from-tree,comments": like_setup(True, "a.swc", True, "out.swc", None),
+            "text,source-from-tree,any-number-of-comments": like_setup(True, "a.swc", True, None, None, "any"),
+            "text,given-source,any-number-of-comments": like_setup("lab", "", True, None, None, "any"),
+            "text,no-source,any-number-of-comments,extra-columns": like_setup(False, "a.swc", True, None, ["e"], "any"),
+            "file,unknown-source,any-number-of-comments": like_setup(True, "", True, "out.swc", None, "any"),
+            "text,source-from-tree,any-number-of-comments-not-written": like_setup(True, "a.swc", False, None, None, "any"),
         },
         requires=[("ids-are-positions", tree_ids_are_positions), "offset-non-negative :: id_offset >= 0"],
         ensures=[
@@ -449,7 +478,8 @@ def register(R: Registry):
             ("output-is-exactly-the-writer's-lines", like_text),
             ("tree's-comment-list-not-modified", like_input_kept),
         ],
-        notes="tree size/content and offset symbolic; the tree's comments are two abstract strings; option combinations as variants",
+        notes="tree size/content and offset symbolic; the tree's comments are two abstract strings, or a list of abstract strings of symbolic "
+              "length (pyvc/strmodel.py); option combinations as variants",
     )
 
 
